@@ -280,6 +280,27 @@ func c17GateExec(c c17GateCase) kit.Outcome {
 				o.Viol = v
 				return o
 			}
+			if same && forwarded {
+				// The multiplexing session for this proxy topic exists now. The proxy's ring then changes
+				// (its signature no longer matches): further traffic over the established session must be refused.
+				for len(hub.routeCli) > 0 {
+					<-hub.routeCli
+				}
+				for len(hub.join) > 0 {
+					<-hub.join
+				}
+				stale := *req
+				stale.Signature = req.Signature + "-stale"
+				rejected = false
+				err = to.TopicMaster(&stale, &rejected)
+				forwarded = len(hub.routeCli)+len(hub.join) == 1
+				if err != nil || !rejected || forwarded {
+					o.Viol = kit.V("gate-accepted-different-membership:TopicMaster:established-session", "TopicMaster from %q to %q for topic %q over an established multiplexing session with a ring signature that no longer matches: err=%v rejected=%v forwarded=%v",
+						from.thisNodeName, to.thisNodeName, tp, err, rejected, forwarded)
+					return o
+				}
+				o.Classes = append(o.Classes, "stale-signature-on-established-session")
+			}
 		}
 	}
 	return o
